@@ -229,8 +229,9 @@ class Repo:
         except SyntaxError as e:
             raise AnalysisError("cannot parse %s: %s" % (rel, e))
         if '/tests/' not in rel:
-            from .normalize import canonical_imports
+            from .normalize import canonical_imports, canonical_locals
             canonical_imports(tree)
+            canonical_locals(tree, rel)
         self._normalise(rel, tree)
         inlined = []
         if '/tests/' not in rel:
